@@ -665,6 +665,14 @@ def e_data(p):
             pass
 
 
+def e_mpi_chunks(p):
+    """The chunk kernels of the distributed betweenness measures, called on
+    every contiguous chunking of the node range exactly as the MPI master
+    cuts it (row blocks with start > 0) - here under the sanitiser."""
+    from . import c19
+    c19.fam_chunks([p["n"], p["mask"], p["wk"]])
+
+
 def _lim(f):
     with limited_rng():
         return f()
